@@ -79,6 +79,7 @@ type dpHist struct {
 	newIdx     [][][]string // candidate new indexes per table
 	failed     bool
 	soft       bool
+	nNoOff  int
 	plainBuild bool // scripted history: index build without any generated extras
 	hid        int
 	log        []string // op lines of this history (for failure descriptions)
@@ -120,6 +121,14 @@ func (h *dpHist) fail(sig, msg string) {
 		hist = "…" + hist[len(hist)-1500:]
 	}
 	h.tr.Fail(sig, fmt.Sprintf("seed %d history %d (%s): %s | ops: %s", lib.Seed(), h.hid, h.cfg.name, msg, hist))
+}
+
+// noOff is the record offset reported for a write the implementation refused (no row was
+// stored): a number no real offset can have (offsets are < 2^40), different every time, so that
+// the model's "record offsets are never reused" hypothesis holds for refused writes too
+func (h *dpHist) noOff() uint64 {
+	h.nNoOff++
+	return 1<<40 + uint64(h.nNoOff)
 }
 
 func (h *dpHist) tblNo(table string) int { return slices.Index(h.tables, table) }
@@ -291,7 +300,7 @@ func (h *dpHist) tranOp(t *dpTran) {
 				return
 			}
 			if cls != "aborted" {
-				h.q(fmt.Sprintf("upd %d %d %d %d %d %s", t.id, tn, row.off, 0, rec.Len(), lib.Xs(keys)), cls)
+				h.q(fmt.Sprintf("upd %d %d %d %d %d %s", t.id, tn, row.off, h.noOff(), rec.Len(), lib.Xs(keys)), cls)
 			}
 		} else {
 			msg = lib.Catch(func() { ut.Delete(nil, table, row.off) })
@@ -321,7 +330,7 @@ func (h *dpHist) tranOp(t *dpTran) {
 			h.sweep()
 			return
 		}
-		var off uint64
+		off := h.noOff()
 		if cls == "ok" {
 			dr := ut.ReadTran.Lookup(table, 0, keys[0])
 			if dr == nil {
@@ -373,6 +382,9 @@ func (h *dpHist) tranOp(t *dpTran) {
 		var newoff uint64
 		msg := lib.Catch(func() { newoff = ut.Update(nil, table, row.off, rec) })
 		cls := dpClass(msg)
+		if cls != "ok" {
+			newoff = h.noOff()
+		}
 		h.tr.Count("upd:" + strings.SplitN(cls, ":", 2)[0])
 		if cls == "aborted" {
 			h.sweep()
@@ -834,7 +846,7 @@ func (h *dpHist) build(tn int, midMerge bool) {
 				h.sweep()
 				break
 			}
-			var off uint64
+			off := h.noOff()
 			if cls == "ok" {
 				off = t.ut.ReadTran.Lookup(table, 0, keys[0]).Off
 				t.view[tn][off] = dpRow{off, rec.Len(), k, a, b}
@@ -1136,7 +1148,7 @@ func (h *dpHist) runBig() {
 		keys := h.keysOf(ts, rec)
 		msg := lib.Catch(func() { t.ut.Output(nil, "t0", rec) })
 		cls := dpClass(msg)
-		var off uint64
+		off := h.noOff()
 		if cls == "ok" {
 			off = t.ut.ReadTran.Lookup("t0", 0, keys[0]).Off
 			t.view[0][off] = dpRow{off, rec.Len(), "", "", ""}
